@@ -148,6 +148,30 @@ pub fn build_builder(
                 .collect()
         };
         match op {
+            Op::Rejected { dup_of } => {
+                // a registration that must be rejected; the builder is used further afterwards
+                let name = match &ops[*dup_of] {
+                    Op::Sys { name, .. } | Op::Batch { name, .. } => name.clone(),
+                    _ => String::new(),
+                };
+                let sys = DynSys {
+                    acc: HAcc {
+                        ctx: ctx.clone(),
+                        idx: usize::MAX,
+                        reads: vec![],
+                        writes: vec![],
+                        provide: false,
+                    },
+                    rt: 3,
+                };
+                let r = catch_unwind(AssertUnwindSafe(|| b.add(sys, &name, &[])));
+                if r.is_ok() && !name.is_empty() {
+                    return Err(BuildPanic {
+                        path: vec![i],
+                        msg: format!("reusing the name {:?} was accepted without a panic", name),
+                    });
+                }
+            }
             Op::Barrier => {
                 // both API styles are exercised: `add_*` on even op positions, the chaining
                 // `with_*` on odd ones
